@@ -410,8 +410,10 @@ class PinWorld:
         if info.entrance_switch is not None and not info.ball_switches:
             # two balls cannot roll over one switch at the same instant: the second one follows behind
             busy = self.switch_busy_until.get(info.entrance_switch.name, -1.0)
-            if busy > self.sim.now:
-                self._later(busy - self.sim.now + 0.06, self._enter, ball, info, fell_back)
+            resting = any(b.kind == "dev" and b.dev == info.name and b.switch is info.entrance_switch for b in self.balls)
+            if busy > self.sim.now or (not resting and self.m.switch_controller.is_active(info.entrance_switch)):
+                # (also while the previous ball's pulse has not ended yet, whatever its width)
+                self._later(max(busy - self.sim.now, 0.0) + 0.06, self._enter, ball, info, fell_back)
                 return
         if self.count(info.name) >= info.capacity:
             # no room: the ball bounces back onto the playfield the device captures from
